@@ -80,7 +80,7 @@ def run(ctx):
             continue
         # the name mapping can turn a valid rename into `rename X to Y` with Y (exactly) an existing component: an invalid script (1-1-6-8)
         comp_names = {x for d in used.values() for x, _ in d["shape"].ids + d["shape"].ms}
-        if any(tgt in comp_names for tgt in re.findall(r"\brename\s+\w+\s+to\s+(\w+)", c["script"])):
+        if any(tgt in comp_names for tgt in re.findall(r"\bto\s+(\w+)", c["script"])):
             continue
         cases.append(c)
     model = exprk.eval_model(cases, "c29")
